@@ -33,15 +33,19 @@ Definition hk_update (fault : bool) (now : gtime) (s : hstate) : hstate :=
                           (tm_reset t0 (inst (t_sched n)) (inst now))
          | None => mkHS (hs_repo s) (mkHook None false true false) t0
          end.
-(* refresh (repair): re-read the cache, leave the timer alone; on failure fall back to a full update
-   (whose own GetNext is a second call: the one-shot fault has been consumed) *)
+(* refresh (repair): if the cached task is still the next one only the cache is renewed and the timer is
+   left alone; otherwise (or on failure) a full update (whose own GetNext is a second call: a one-shot fault
+   has been consumed by then) *)
 Definition hk_refresh (fault : bool) (now : gtime) (s : hstate) : hstate :=
   let h := hs_hook s in
   if negb (hk_started h) then s
   else if fault then hk_update false now s
-  else match get_next (hs_repo s) with
-       | Some n => mkHS (hs_repo s) (mkHook (Some n) (hk_reset h) true (hk_err h)) (hs_timer s)
-       | None => hk_update false now s
+  else match get_next (hs_repo s), hk_cached h with
+       | Some n, Some c =>
+         if String.eqb (t_id n) (t_id c)
+         then mkHS (hs_repo s) (mkHook (Some n) (hk_reset h) true (hk_err h)) (hs_timer s)
+         else hk_update false now s          (* another task is next now: re-arm for it *)
+       | _, _ => hk_update false now s
        end.
 
 Definition far_future : gtime := T (10 ^ 18) true.
